@@ -130,7 +130,7 @@ class RulesNonNormal(c03.Rules):
             if r==z3.sat: rec['sample']={'scenario':self.scn(g,m),'expect':'ok' if oc=='ok' else 'err'}
         return rec
 
-EDGE_PATHS=['d','d/.','./d/','x/../d','d\u00e9','d\U0001F600/a','d/a','da','d//a','/d/a']
+EDGE_PATHS=['d','d/.','./d/','x/../d','d\u00e9','d\U0001F600/a','d/a','da','d//a','/d/a','./d/a','x/../d/a']
 class RulesMatchPrefixEdges(RulesNonNormal):
     """MATCH rules with a source / destination prefix on artifact paths that are the prefix itself, the prefix followed by a
     multi-byte character, or reach the prefix only after normalisation: any verdict, but no panic"""
